@@ -15,6 +15,15 @@ PROPERTY = "C16"
 LEVEL = "exploration"
 
 
+# how the gateways of the current shard are configured beyond the defaults (the same for the source gateway and every fresh one):
+# {"cfg": config overrides, "kw": known_list= / gwy_id= ...}
+_GW: dict = {"cfg": {}, "kw": {}}
+
+
+def _cfg(eav: bool) -> dict:
+    return {"disable_discovery": True, "enforce_known_list": False, "enable_eavesdrop": eav, **_GW["cfg"]}
+
+
 def fresh_from(state, now: dt, eavesdrop: bool, with_schema: bool):
     """A brand-new gateway (new world, new loop) started the way Home Assistant does: saved schema as configuration,
     saved packets as cache; the wall clock is that of the snapshot."""
@@ -24,7 +33,8 @@ def fresh_from(state, now: dt, eavesdrop: bool, with_schema: bool):
     w = G.GwyWorld()
     w.set_time(now)
     kw = dict(schema) if with_schema else {}  # the saved schema as it was saved
-    gwy = w.add_gateway(config={"disable_discovery": True, "enforce_known_list": False, "enable_eavesdrop": eavesdrop}, cached_packets=dict(pkts), **kw)
+    kw.update(_GW["kw"])
+    gwy = w.add_gateway(config=_cfg(eavesdrop), cached_packets=dict(pkts), **kw)
     w.loop.quiesce(w.loop.time() + 5)
     return w, gwy
 
@@ -143,7 +153,7 @@ def cycle(t: E.Tally, w, gwy, eav: bool, include_expired: bool, rep: dict, where
     try:
         w3 = G.GwyWorld()
         w3.set_time(now)
-        g3 = w3.add_gateway(config={"disable_discovery": True, "enforce_known_list": False, "enable_eavesdrop": eav}, start=False, **dict(s1[0]))
+        g3 = w3.add_gateway(config=_cfg(eav), start=False, **{**dict(s1[0]), **_GW["kw"]})
 
         async def start_and_snapshot():
             await g3.start(cached_packets=dict(s1[1]))
@@ -195,7 +205,8 @@ def _sdiff(a, b, p="") -> str:
 
 
 def run_history(t: E.Tally, lines: list, eav: bool, at: set[int], rep: dict, label: str) -> None:
-    w, gwy = GC.new_world(eavesdrop=eav)
+    w = G.GwyWorld()
+    gwy = w.add_gateway(config=_cfg(eav), **_GW["kw"])
     try:
         for k, ln in enumerate(lines):
             GC.feed(w, ln)
@@ -226,13 +237,26 @@ def shard(arg) -> E.Tally:
     t = E.Tally()
     lines = GC.retime(GC.log(rel))  # packets arrive with increasing, unique timestamps (some repo logs are curated out of order)
     n = len(lines)
+    _GW["cfg"], _GW["kw"] = {}, {}
+    if kind == "enforced":
+        # the known list is enforced and names every device of the log but not the gateway, whose id the port reports (a serial
+        # gateway): the traffic to and from the gateway's own address is part of the state and must survive the round trip
+        ids: dict[str, int] = {}
+        for ln in lines:
+            for a in ln[2].split()[2:5]:
+                if a[2:3] == ":" and a[:2] not in ("--", "63"):
+                    ids[a] = ids.get(a, 0) + 1
+        gws = sorted((a for a in ids if a[:2] == "18"), key=lambda a: -ids[a])
+        _GW["cfg"] = {"enforce_known_list": True}
+        _GW["kw"] = {"known_list": {a: {} for a in ids if a[:2] != "18"}, "gwy_id": gws[0] if gws else G.GWY_ID}
+        kind = "prefix"
     if kind == "prefix":
         stride = (5 if n <= 120 else 25) if quick else 1
         pts = [p for p in range(0, n, stride)] + [n - 1]
         mine = {p for j, p in enumerate(pts) if j % nsh == i}
         # one replay per shard; snapshots taken at this shard's prefixes (a snapshot/restore into the same gateway is
         # itself required to change nothing, so later prefixes are still 'the state reached by the history')
-        run_history(t, lines, eav, mine, {"log": rel, "eav": eav, "edit": None, "at": sorted(mine)}, rel)
+        run_history(t, lines, eav, mine, {"log": rel, "eav": eav, "edit": None, "at": sorted(mine), "gw": {"cfg": dict(_GW["cfg"]), "kw": dict(_GW["kw"])}}, rel + ("[known list enforced]" if _GW["cfg"] else ""))
         t.by["prefixes"] += len(mine)
     elif kind == "writes":
         # every distinct request / write frame found anywhere in the repo's logs arrives in mid-history
@@ -295,6 +319,12 @@ def plan(quick: bool):
         if len(GC.log(rel)) <= 300:
             for eav in (False, True):
                 jobs.append(("writes", rel, eav, 0, 1, quick))
+    for rel in logs:  # the known list enforced, the gateway known from the port only
+        n = len(GC.log(rel))
+        if n <= (300 if quick else 10**6) and any(" 18:" in ln[2] for ln in GC.log(rel)):
+            nsh = max(1, min(8, n // 40))
+            for i in range(nsh):
+                jobs.append(("enforced", rel, False, i, nsh, quick))
     shortest = sorted((r for r in logs if "#" not in r), key=lambda r: len(GC.log(r)))[: 3 if quick else 6]
     for rel in shortest:
         n = len(GC.log(rel))
@@ -333,6 +363,8 @@ def replay(rep: dict):
     logcap.install()
     t = E.Tally()
     lines = GC.retime(GC.log(rep["log"]))
+    gw = rep.get("gw") or {}
+    _GW["cfg"], _GW["kw"] = dict(gw.get("cfg") or {}), dict(gw.get("kw") or {})
     if rep.get("edit") is None:
         run_history(t, lines, rep["eav"], set(rep["at"]), rep, rep["log"])
     elif rep["edit"] == "writes":
